@@ -163,6 +163,9 @@ class ReverseLT(Generic[LT]):
     def __lt__(self, other: ReverseLT[LT]) -> bool:
         return other.key < self.key
 
+    def __eq__(self, other: ReverseLT[LT]) -> bool:  # type: ignore[override]
+        return not (self.key < other.key or other.key < self.key)
+
 
 # Python's heapq provides a *min*-heap
 # When finding the n largest items, heapq tracks the *minimum* item still large enough.
@@ -176,23 +179,23 @@ async def _largest(
 ) -> "list[T]":
     ordered: Callable[[LT], LT] = ReverseLT if reverse else lambda x: x  # type: ignore
     async with ScopedIter(iterable) as iterator:
-        # assign an ordering to items to solve ties
-        order_sign = -1 if reverse else 1
+        # assign an ordering to items to solve ties: of several equal items,
+        # earlier ones rank higher so that later ones are discarded first
         n_heap = [
-            (ordered(await key(item)), index * order_sign, item)
+            (ordered(await key(item)), -index, item)
             async for index, item in a_zip(range(n), borrow(iterator))
         ]
         if not n_heap:
             return []
         _heapq.heapify(n_heap)
         worst_key = n_heap[0][0]
-        next_index = n * order_sign
+        next_index = -n
         async for item in iterator:
             item_key = ordered(await key(item))
             if worst_key < item_key:
                 _heapq.heapreplace(n_heap, (item_key, next_index, item))
                 worst_key = n_heap[0][0]
-                next_index += 1 * order_sign
+                next_index -= 1
         n_heap.sort(reverse=True)
     return [item for _, _, item in n_heap]
 
